@@ -182,6 +182,7 @@ class GhostList:
     """marker class of a ghost-state object"""
 
 TU = "swcgeom/core/tree_utils.py"
+_SUBTREE_KIT = {}  # helpers of register_subtree shared with the later sections
 EXTRA6 = "w"
 
 
@@ -209,6 +210,14 @@ def register_subtree(R):
 
     def all_cols(t):
         return dict(t.fields["ndata"].items)
+
+    def list_view(L):
+        if L.items is None:
+            return L.cols[0], zint(L.n)
+        a = z3.K(I, z3.IntVal(0))
+        for k, x in enumerate(L.items):
+            a = z3.Store(a, k, to_z3(x, "int"))
+        return a, z3.IntVal(len(L.items))
 
     # ------------------------------------------------------------------ to_subtree_impl
     def impl_setup(kind):
@@ -285,15 +294,41 @@ def register_subtree(R):
           notes="the dict form of out_mapping is covered by the bounded stand-in only")
 
     # ------------------------------------------------------------------ to_subtree
+    def raw_tree(S, name="t"):
+        return sym_tree(S, name, frozen=True, extra_cols=(EXTRA6,))
+
+    def wf_clause(which, tname="swc_like"):
+        """well-formed input tree (a PRECONDITION: proved at every modular call site)"""
+        def f(E, v, o):
+            t = v[tname]
+            n = nof(t)
+            i = z3.Int(fresh_name("i"))
+            idc, pid = col(t, "id").arr, col(t, "pid").arr
+            if which == "ids-are-positions":
+                return z3.ForAll([i], z3.Implies(z3.And(i >= 0, i < n), sel(idc, i) == i))
+            if which == "node-0-is-the-root-and-parents-exist":
+                return z3.And(sel(pid, 0) == -1, z3.ForAll([i], z3.Implies(z3.And(i > 0, i < n), z3.And(sel(pid, i) >= 0, sel(pid, i) < n))))
+            if which == "every-node-reaches-the-root":
+                return z3.And(depth(0) == 0, z3.ForAll([i], z3.Implies(z3.And(i > 0, i < n), z3.And(depth(i) == depth(sel(pid, i)) + 1, depth(i) > 0))))
+            raise KeyError(which)
+
+        return (which, f)
+
+    WF = ["ids-are-positions", "node-0-is-the-root-and-parents-exist", "every-node-reaches-the-root"]
+
     def ts_setup(S):
-        t = wf_tree(S)
-        n = nof(t)
+        t = raw_tree(S)
         rem = S.plist("int", name="removals")
-        j, i = z3.Int(fresh_name("j")), z3.Int(fresh_name("i"))
-        S.assume(z3.ForAll([j], z3.Implies(z3.And(j >= 0, j < zint(rem.n)), z3.And(sel(rem.cols[0], j) >= 0, sel(rem.cols[0], j) < n))))
+        i = z3.Int(fresh_name("i"))
         # ghost definition: a kept entry's parent entry is the parent node (ids are positions)
         S.assume(z3.ForAll([i], PPOS(i) == sel(col(t, "pid").arr, i)))
         return dict(swc_like=t, removals=rem, out_mapping=None)
+
+    def ts_pre_removals(E, v, o):
+        rem, n = v["removals"], nof(v["swc_like"])
+        A, ln = list_view(rem)
+        j = z3.Int(fresh_name("j"))
+        return z3.ForAll([j], z3.Implies(z3.And(j >= 0, j < ln), z3.And(sel(A, j) >= 0, sel(A, j) < n)))
 
     def ts_inv(which):
         def f(E, v, o):
@@ -309,57 +344,87 @@ def register_subtree(R):
 
         return f
 
+    def ts_result(S, fr):
+        """shape of to_subtree's result at call sites: a new Tree of m nodes on fresh columns, with the ghost outputs of the
+        contract (new-to-old mapping, its inverse rho, the removal closure Rm) attached for the caller's clauses"""
+        from swcgeom.core.swc_utils import get_types
+        from swcgeom.core.tree import Tree
+
+        t = fr.vars["swc_like"]
+        m = S.int("m")
+        S.assume(m.z >= 0)
+        nd = PDict({c: SArr.fresh(a.kind, m.z, name="sub_" + c) for c, a in all_cols(t).items()})
+        res = Obj(Tree, dict(types=get_types(), source=t.fields["source"], comments=PList([]), names=t.fields["names"], ndata=nd))
+        tag = fresh_name("ts")
+        res.ghost6 = dict(mapping=SArr.fresh("int", m.z, name="mapping"), kappa=z3.Function("kappa_" + tag, I, I), rho=z3.Function("rho_" + tag, I, I), Rm=z3.Function("Rm_" + tag, I, z3.BoolSort()))
+        return res
+
+    def sub_ghost(E, res):
+        """(mapping, kappa, rho, Rm) of a tree produced by to_subtree: read off the carrier's own calls inside to_subtree's proof,
+        off the ghost outputs of the modular result at a call site"""
+        g = getattr(res, "ghost6", None)
+        if g is not None:
+            return g["mapping"], g["kappa"], g["rho"], g["Rm"]
+        c = topo_call(E)
+        if c is None or "Rm" not in E.spec_extra:
+            return None
+        (new_id, new_pid), mapping = c["__result__"]
+        return mapping, mapping.kappa, mapping.rho, E.spec_extra["Rm"]
+
+    def subtree_clause(E, which, res, t, gh, seed=None):
+        """the clauses of `res = the tree that keeps exactly the nodes of t outside Rm` (shared by to_subtree and its clients)"""
+        if not isinstance(res, Obj) or gh is None:
+            return False
+        mapping, kappa, rho, Rm = gh
+        n, m = nof(t), mapping.nz()
+        k, x, j = z3.Int(fresh_name("k")), z3.Int(fresh_name("x")), z3.Int(fresh_name("j"))
+        pid0 = col(t, "pid").arr
+        rc = all_cols(res)
+        if which == "removal-closure-is-removed-or-below-a-removed-node":
+            # Rm is THE closure of the seed set (the requested removals)
+            return z3.ForAll([x], z3.Implies(z3.And(x >= 0, x < n), Rm(x) == z3.Or(seed(x), z3.And(sel(pid0, x) >= 0, Rm(sel(pid0, x))))))
+        if which == "survivors-are-exactly-the-nodes-outside-the-closure-in-order":
+            return z3.And(m <= n, z3.ForAll([k], z3.Implies(z3.And(k >= 0, k < m), z3.And(mapping.get(k).z >= 0, mapping.get(k).z < n, z3.Not(Rm(mapping.get(k).z)), mapping.get(k).z == kappa(k)))),
+                          z3.ForAll([k, j], z3.Implies(z3.And(0 <= k, k < j, j < m), mapping.get(k).z < mapping.get(j).z)),
+                          z3.ForAll([x], z3.Implies(z3.And(x >= 0, x < n, z3.Not(Rm(x))), z3.And(rho(x) >= 0, rho(x) < m, mapping.get(rho(x)).z == x))))
+        if which == "survivors-keep-every-attribute":
+            if set(rc) != set(all_cols(t)):
+                return False
+            out = []
+            for cname, src in all_cols(t).items():
+                if cname in ("id", "pid"):
+                    continue
+                a = rc[cname]
+                out.append(z3.And(a.nz() == m, z3.ForAll([k], z3.Implies(z3.And(k >= 0, k < m), a.get(k).z == src.get(mapping.get(k).z).z))))
+            return z3.And(*out)
+        if which == "ids-are-positions-and-parent-relation-kept":
+            q = rc["pid"].get(k).z
+            p = sel(pid0, mapping.get(k).z)
+            return z3.And(rc["id"].nz() == m, rc["pid"].nz() == m,
+                          z3.ForAll([k], z3.Implies(z3.And(k >= 0, k < m), z3.And(rc["id"].get(k).z == k, z3.If(p == -1, q == -1, z3.And(q >= 0, q < m, mapping.get(q).z == p))))))
+        if which == "result-shares-no-storage-with-the-input":
+            return all(a.uid not in E.entry_uids for a in rc.values()) and res.uid not in E.entry_uids and res.fields["ndata"].uid not in E.entry_uids
+        raise KeyError(which)
+
     def ts_post(which):
         def f(E, v, o):
-            res = v["result"]
-            t = o["swc_like"]
-            if not isinstance(res, Obj):
-                return False
-            Rm = E.spec_extra["Rm"]
-            c = topo_call(E)
-            if c is None:
-                return False
-            (new_id, new_pid), mapping = c["__result__"]
-            kappa, rho = mapping.kappa, mapping.rho
-            n, m = nof(t), mapping.nz()
-            k, x, j = z3.Int(fresh_name("k")), z3.Int(fresh_name("x")), z3.Int(fresh_name("j"))
-            rem = o["removals"]
-            pid0 = col(t, "pid").arr
-            rc = all_cols(res)
-            if which == "removal-closure-is-removed-or-below-a-removed-node":
-                # Rm is THE closure of the requested removals
-                return z3.ForAll([x], z3.Implies(z3.And(x >= 0, x < n), Rm(x) == z3.Or(z3.Exists([j], z3.And(j >= 0, j < zint(rem.n), sel(rem.cols[0], j) == x)),
-                                                                                       z3.And(sel(pid0, x) >= 0, Rm(sel(pid0, x))))))
-            if which == "survivors-are-exactly-the-nodes-outside-the-closure-in-order":
-                return z3.And(z3.ForAll([k], z3.Implies(z3.And(k >= 0, k < m), z3.And(mapping.get(k).z >= 0, mapping.get(k).z < n, z3.Not(Rm(mapping.get(k).z)), mapping.get(k).z == kappa(k)))),
-                              z3.ForAll([k, j], z3.Implies(z3.And(0 <= k, k < j, j < m), mapping.get(k).z < mapping.get(j).z)),
-                              z3.ForAll([x], z3.Implies(z3.And(x >= 0, x < n, z3.Not(Rm(x))), z3.And(rho(x) >= 0, rho(x) < m, mapping.get(rho(x)).z == x))))
-            if which == "survivors-keep-every-attribute":
-                out = [set(rc) == set(all_cols(t))]
-                for cname, src in all_cols(t).items():
-                    if cname in ("id", "pid"):
-                        continue
-                    a = rc[cname]
-                    out.append(z3.And(a.nz() == m, z3.ForAll([k], z3.Implies(z3.And(k >= 0, k < m), a.get(k).z == src.get(mapping.get(k).z).z))))
-                return z3.And(*[q if not isinstance(q, bool) else z3.BoolVal(q) for q in out])
-            if which == "ids-are-positions-and-parent-relation-kept":
-                q = rc["pid"].get(k).z
-                p = sel(pid0, mapping.get(k).z)
-                return z3.And(rc["id"].nz() == m, rc["pid"].nz() == m,
-                              z3.ForAll([k], z3.Implies(z3.And(k >= 0, k < m), z3.And(rc["id"].get(k).z == k, z3.If(p == -1, q == -1, z3.And(q >= 0, q < m, mapping.get(q).z == p))))))
-            if which == "result-shares-no-storage-with-the-input":
-                return all(a.uid not in E.entry_uids for a in rc.values())
-            raise KeyError(which)
+            res, t = v["result"], o["swc_like"]
+            A, ln = list_view(o["removals"])
+            j = z3.Int(fresh_name("j"))
+            listed = lambda x: z3.Exists([j], z3.And(j >= 0, j < ln, sel(A, j) == x))
+            return subtree_clause(E, which, res, t, sub_ghost(E, res), seed=listed)
 
         return f
 
     TS_POSTS = ["removal-closure-is-removed-or-below-a-removed-node", "survivors-are-exactly-the-nodes-outside-the-closure-in-order", "survivors-keep-every-attribute",
                 "ids-are-positions-and-parent-relation-kept", "result-shares-no-storage-with-the-input"]
     R.add(f"{TU}:to_subtree", prop="C06", setup=ts_setup,
+          requires=[wf_clause(w) for w in WF] + [("removals-are-node-ids", ts_pre_removals)],
+          returns=ts_result,
           ensures=[(nm, ts_post(nm)) for nm in TS_POSTS],
           loops={0: dict(invariant=[("marks-so-far", ts_inv("marks-so-far"))])},
-          notes="the input tree is frozen (any store into it is a failed frame obligation); removals may repeat and come in any order")
-
+          notes="the input tree is frozen (any store into it is a failed frame obligation); removals may repeat and come in any order; "
+                "used modularly by cut_tree / CutByType / CutShortTipBranch (ghost outputs: mapping, its inverse, the removal closure)")
 
     # ------------------------------------------------------------------ get_subtree_impl (traverse client rule)
     def gs_setup(S):
@@ -368,14 +433,6 @@ def register_subtree(R):
         S.assume(z3.And(r.z >= 0, r.z < nof(t)))
         G = Obj(GhostList, dict(at=SArr(z3.K(I, z3.IntVal(-1)), nof(t), "int", name="at")))  # ghost: at[x] = position of node x in `ids`
         return dict(swc_like=t, n=r, out_mapping=None, G6=G)
-
-    def list_view(L):
-        if L.items is None:
-            return L.cols[0], zint(L.n)
-        a = z3.K(I, z3.IntVal(0))
-        for k, x in enumerate(L.items):
-            a = z3.Store(a, k, to_z3(x, "int"))
-        return a, z3.IntVal(len(L.items))
 
     def gs_J(E, v, ENT, LEFT, ctx):
         """`ids` lists exactly the entered nodes, each once (ghost inverse at), the start node first and every other node after its parent"""
@@ -451,6 +508,191 @@ def register_subtree(R):
                        asserts_after={"sub_ids": [("parent-entry-choice-function", gs_define_ppos)]}),
           notes="mapping = the pre-order list of the subtree; the input is frozen")
 
+    from pyvc.engine import Unsupported
+
+    _SUBTREE_KIT.update(nof=nof, col=col, sel=sel, list_view=list_view, raw_tree=raw_tree, wf_clause=wf_clause, WF=WF, sub_ghost=sub_ghost,
+                        subtree_clause=subtree_clause, all_cols=all_cols, wf_tree=wf_tree, topo_call=topo_call, Unsupported=Unsupported)
+
+
+# =========================================================================== cut_tree (enter form / leave form / neither)
+def register_cut_tree(R):
+    from contracts.C04 import depth
+    from pyvc.traverse_rule import Rule
+    from pyvc.values import Obj, fresh
+
+    K = _SUBTREE_KIT
+    nof, col, sel, list_view = K["nof"], K["col"], K["sel"], K["list_view"]
+    I, B = z3.IntSort(), z3.BoolSort()
+    # the user's enter callback is an ARBITRARY function of (node, incoming value) -> (value, removal flag); values are opaque
+    # references (0 = None)
+    UE_VAL = z3.Function("user_enter_value", I, I, I)
+    UE_FLAG = z3.Function("user_enter_removal", I, I, B)
+
+    def handle_index(E, node, t, who):
+        ok = isinstance(node, Obj) and node.fields.get("attach") is t
+        E.prove(f"cut_tree/call:{who}/pre/callback-receives-a-handle-on-the-input-tree", ok, "precondition")
+        return to_z3(node.fields["idx"], "int")
+
+    def setup(mode):
+        def f(S):
+            t = K["raw_tree"](S)
+            n = nof(t)
+            G = Obj(GhostList, dict(at=SArr(z3.K(I, z3.IntVal(-1)), n, "int", name="at"),                       # position of a node in `removals`
+                                    flag=SArr(z3.K(I, z3.BoolVal(False)), n, "bool", name="flag"),               # leave form: flag the callback returned at x
+                                    val=SArr(z3.K(I, z3.IntVal(0)), n, "oref", name="val"),                      # leave form: value it returned at x
+                                    seen=SArr(z3.K(I, z3.K(I, z3.IntVal(0))), n, "int", name="seen"),            # leave form: the child values it was handed at x
+                                    seenlen=SArr(z3.K(I, z3.IntVal(-1)), n, "int", name="seenlen")))
+
+            def user_enter(E, args, kwargs):
+                if len(args) != 2 or kwargs:
+                    raise K["Unsupported"]("enter callback called with an unexpected signature")
+                x = handle_index(E, args[0], t, "enter")
+                inc = to_z3(args[1], "oref")
+                return (Sym(UE_VAL(x, inc), "oref"), Sym(UE_FLAG(x, inc), "bool"))
+
+            def user_leave(E, args, kwargs):
+                if len(args) != 2 or kwargs:
+                    raise K["Unsupported"]("leave callback called with an unexpected signature")
+                x = handle_index(E, args[0], t, "leave")
+                A, ln = list_view(args[1])
+                rv, rf = fresh("oref", "leave_value"), fresh("bool", "leave_removal")
+                g = G.fields
+                g["flag"].arr, g["val"].arr = z3.Store(g["flag"].arr, x, rf.z), z3.Store(g["val"].arr, x, rv.z)
+                g["seen"].arr, g["seenlen"].arr = z3.Store(g["seen"].arr, x, A), z3.Store(g["seenlen"].arr, x, ln)
+                return (rv, rf)
+
+            return dict(tree=t, enter=S.callback("enter", user_enter) if mode == "enter" else None,
+                        leave=S.callback("leave", user_leave) if mode == "leave" else None, G6=G, __ghost__=dict(mode=mode))
+
+        return f
+
+    def define_designated(E, old):
+        """enter form, ghost definition by recursion over the (well-founded) parent relation: VALc(x) = value the traversal carries
+        at x, RMc(x) = x is designated for removal (the callback says so at x, or an ancestor is designated: then the callback is
+        NOT consulted at x and the ancestor's value is carried on)"""
+        if E.spec_extra.get("mode") != "enter":
+            return
+        t = old["tree"]
+        P, n = col(t, "pid").arr, nof(t)
+        RMc, VALc = z3.Function(fresh_name("RMc"), I, B), z3.Function(fresh_name("VALc"), I, I)
+        E.spec_extra["RMc"], E.spec_extra["VALc"] = RMc, VALc
+        x = z3.Int(fresh_name("x"))
+        px = sel(P, x)
+        E.assume(z3.ForAll([x], z3.Implies(z3.And(x >= 0, x < n), z3.If(px < 0,
+                 z3.And(RMc(x) == UE_FLAG(x, 0), VALc(x) == UE_VAL(x, 0)),
+                 z3.And(RMc(x) == z3.Or(RMc(px), UE_FLAG(x, VALc(px))), VALc(x) == z3.If(RMc(px), VALc(px), UE_VAL(x, VALc(px))))))))
+        E.assumptions.add("ghost definition (well-founded recursion over the parent relation): RMc / VALc = removal designation and carried value of cut_tree's enter form")
+
+    def flagged(E, v):
+        """x -> `the callback designates x itself`"""
+        mode = E.spec_extra["mode"]
+        if mode == "enter":
+            RMc = E.spec_extra["RMc"]
+            return lambda x: RMc(x)
+        if mode == "leave":
+            flag = v["G6"].fields["flag"].arr
+            return lambda x: sel(flag, x)
+        return lambda x: z3.BoolVal(False)
+
+    def J(E, v, ENT, LEFT, ctx):
+        """`removals` lists exactly the nodes designated so far, each once (ghost inverse `at`)"""
+        mode = E.spec_extra["mode"]
+        A, ln = list_view(v["removals"])
+        g = v["G6"].fields
+        at = g["at"].arr
+        a, x, k = z3.Int(fresh_name("a")), z3.Int(fresh_name("x")), z3.Int(fresh_name("k"))
+        done = ENT if mode == "enter" else LEFT
+        fl = flagged(E, v)
+        member = lambda t_: z3.And(sel(done, t_), fl(t_))
+        inl = lambda t_: z3.And(t_ >= 0, t_ < ln)
+        out = [ln >= 0,
+               z3.ForAll([a], z3.Implies(inl(a), z3.And(ctx.R(sel(A, a)), member(sel(A, a)), sel(at, sel(A, a)) == a))),
+               z3.ForAll([x], z3.Implies(z3.And(ctx.R(x), member(x)), z3.And(inl(sel(at, x)), sel(A, sel(at, x)) == x)))]
+        if mode == "leave":  # what the user callback was handed at every node left so far: its children's values in order
+            out.append(z3.ForAll([x], z3.Implies(z3.And(ctx.R(x), sel(LEFT, x)), sel(g["seenlen"].arr, x) == ctx.nkids(x))))
+            out.append(z3.ForAll([x, k], z3.Implies(z3.And(ctx.R(x), sel(LEFT, x), 0 <= k, k < ctx.nkids(x)), sel(sel(g["seen"].arr, x), k) == sel(g["val"].arr, ctx.kid(x, k)))))
+        return z3.And(*out)
+
+    def Qe(E, v, x, val, ctx):
+        if not (isinstance(val, tuple) and len(val) == 2):
+            return False
+        return z3.And(to_z3(val[0], "oref") == E.spec_extra["VALc"](x), to_z3(E.truth(val[1]), "bool") == E.spec_extra["RMc"](x))
+
+    def Ql(E, v, x, val, ctx):
+        return to_z3(val, "oref") == sel(v["G6"].fields["val"].arr, x)
+
+    def ghost_step(E, v, x, ctx):
+        A, ln = list_view(v["removals"])
+        G = v["G6"]
+        G.fields["at"].arr = z3.Store(G.fields["at"].arr, x, ln - 1)
+
+    def result_ghost(E, v, o):
+        res = v["result"]
+        if E.spec_extra["mode"] == "neither":  # nothing removed: the identity mapping
+            k = z3.Int(fresh_name("k"))
+            n = nof(o["tree"])
+            ident = SArr(z3.Lambda([k], k), n, "int", name="identity")
+            return (ident, (lambda q: q), (lambda q: q), (lambda q: z3.BoolVal(False)))
+        return getattr(res, "ghost6", None) and K["sub_ghost"](E, res)
+
+    def post(which):
+        def f(E, v, o):
+            res, t = v["result"], o["tree"]
+            gh = result_ghost(E, v, o)
+            if not gh:
+                return False
+            if which == "callback-handed-its-childrens-values-in-order":
+                if E.spec_extra["mode"] != "leave":
+                    return True
+                g = v["G6"].fields
+                x, k = z3.Int(fresh_name("x")), z3.Int(fresh_name("k"))
+                P, n = col(t, "pid").arr, nof(t)
+                ctx = E.ghost["last-traverse-ctx"]  # children of x in table order: kid(x, 0..nkids(x)-1)
+                return z3.ForAll([x], z3.Implies(z3.And(x >= 0, x < n), z3.And(sel(g["seenlen"].arr, x) == ctx.nkids(x),
+                                 z3.ForAll([k], z3.Implies(z3.And(0 <= k, k < ctx.nkids(x)), sel(sel(g["seen"].arr, x), k) == sel(g["val"].arr, ctx.kid(x, k)))))))
+            return K["subtree_clause"](E, which, res, t, gh, seed=flagged(E, v))
+
+        return f
+
+    def induction_hint(E, v):
+        """enter form: the closure to_subtree computes adds nothing to the designated set (it is already closed downwards).
+        Tree induction for P(x) := Rm(x) == RMc(x); base and step are proved, the schema is the Lean lemma `tree_induction`."""
+        if E.spec_extra.get("mode") != "enter":
+            return
+        res = v.get("result") if "result" in v else None
+        calls = [kw for nm, kw in E.call_log if nm == "to_subtree"]
+        if len(calls) != 1:
+            return
+        res = calls[0]["__result__"]
+        t = calls[0]["swc_like"]
+        mapping, kappa, rho, Rm = K["sub_ghost"](E, res)
+        RMc = E.spec_extra["RMc"]
+        P, n = col(t, "pid").arr, nof(t)
+        A, ln = list_view(calls[0]["removals"])
+        x, j = z3.Int(fresh_name("x")), z3.Int(fresh_name("j"))
+        Rg = lambda q: z3.And(q >= 0, q < n)
+        E.prove("cut_tree/step/listed-iff-designated", z3.ForAll([x], z3.Implies(Rg(x), z3.Exists([j], z3.And(j >= 0, j < ln, sel(A, j) == x)) == RMc(x))), "annotation")
+        base = Rm(0) == RMc(0)
+        step = z3.ForAll([x], z3.Implies(z3.And(Rg(x), x != 0, Rm(sel(P, x)) == RMc(sel(P, x))), Rm(x) == RMc(x)))
+        E.prove("cut_tree/step/closure-agrees-at-the-root", base, "annotation")
+        E.prove("cut_tree/step/closure-agrees-below-an-agreeing-parent", step, "annotation")
+        E.assume(z3.Implies(z3.And(base, step), z3.ForAll([x], z3.Implies(Rg(x), Rm(x) == RMc(x)))))
+        E.assumptions.add("assumed-lemma:tree_induction (depth witness) instantiated for P(x) = (closure of the listed removals at x == designation of cut_tree's enter form at x)")
+
+    CT_POSTS = ["removal-closure-is-removed-or-below-a-removed-node", "survivors-are-exactly-the-nodes-outside-the-closure-in-order", "survivors-keep-every-attribute",
+                "ids-are-positions-and-parent-relation-kept", "result-shares-no-storage-with-the-input"]
+    LABEL = {"removal-closure-is-removed-or-below-a-removed-node": "removed-iff-designated-by-the-callback-or-below-a-removed-node"}
+    R.add(f"{TU}:cut_tree", prop="C06",
+          variants={"enter callback": setup("enter"), "leave callback": setup("leave"), "neither (plain copy)": setup("neither")},
+          requires=[K["wf_clause"](w, "tree") for w in K["WF"]],
+          ghost_entry=define_designated,
+          ensures=[(LABEL.get(nm, nm), post(nm)) for nm in CT_POSTS] + [("leave-callback-handed-its-childrens-values-in-order", post("callback-handed-its-childrens-values-in-order"))],
+          options=dict(traverse_rule=Rule(J, Qe=Qe, Ql=Ql, modifies=[("removals", "int"), "G6"], enter_kind=lambda E: (fresh("oref", "pv"), fresh("bool", "pr")), leave_kind="oref",
+                                          ghost_enter=ghost_step, ghost_leave=ghost_step),
+                       hints={"post/removed-iff-designated-by-the-callback-or-below-a-removed-node": induction_hint}),
+          notes="enter form: the user callback is an uninterpreted function of (node, incoming value); leave form: arbitrary results recorded in ghost "
+                "observation arrays; to_subtree is used through its proved contract; the input tree is frozen")
+
 
 _reg6b = register
 
@@ -458,6 +700,7 @@ _reg6b = register
 def register(R):  # noqa: F811
     _reg6b(R)
     register_subtree(R)
+    register_cut_tree(R)
 
 
 # =========================================================================== CutByFurcationOrder._enter (the rule the order cut designates)
